@@ -996,7 +996,7 @@ def bounded_function(rnd, max_depth=3, size=14, limit=22):
 
 # ------------------------------------------------------------------------------- edits
 EDIT_KINDS = [("delete", 18), ("dup", 14), ("move", 14), ("swap", 10), ("wrap", 10), ("unwrap", 6),
-              ("consume_borrowed", 12), ("reassign", 10), ("arg_dup", 6), ("jump", 5)]
+              ("consume_borrowed", 12), ("reassign", 10), ("arg_dup", 6), ("jump", 5), ("return_borrowed_part", 6)]
 
 
 def _simple_positions(fn, kinds=("assign", "expr")):
@@ -1145,6 +1145,22 @@ def apply_edit(rnd, fn):
         b, j, _ = pick(ins)
         b.insert(j, s)
         return "consume_borrowed"
+    if kind == "return_borrowed_part":
+        # `return s.q` / `return t[1]` for a borrowed struct / tuple parameter: the part is moved out
+        # and never handed back.  What the return used to carry is consumed first, so that this is
+        # the only thing wrong with the function.
+        if fn["ret"] != "Q":
+            return None
+        parts = [pl for pl, root, bor, ty in _q_places(fn) if bor and ty != "Q"]
+        rets = [(b, i) for b, i, _, _ in _simple_positions(fn, ("return",)) if b[i][1] is not None]
+        if not parts or not rets:
+            return None
+        b, i = pick(rets)
+        old = b[i][1]
+        b[i] = ["return", copy.deepcopy(pick(parts))]
+        if old[0] in ("v", "f", "i", "new", "call"):
+            b.insert(i, ["expr", ["call", "discard", [old]]])
+        return "return_borrowed_part"
     if kind == "reassign":
         ps = [p for p in _q_places(fn) if p[0][0] != "i"]
         ins = _insert_positions(fn)
